@@ -131,6 +131,38 @@ def refnal (chunks : List (List UInt8)) (complete : Bool) (ops : List String) : 
     | _ => (c, sp, (avail, spAvail), "bad" :: outs)) (c0, c0, (0, 0), [])
   " ".intercalate out.reverse
 
+/-- `refnalhuge n lg complete extra mode`: n chunks of 2^lg bytes + a last chunk of `extra` bytes. Up to 2^16 bytes in all the
+model reader is *executed* with the same drain pattern as the harness (fill/consume, 64 KiB reads, or alternating); above that
+the line is answered from the statement of `C15.reads_as_concatenation` / `end_is_stable` (every byte once and in order: the total
+is the sum of the chunk lengths; then end of data or WouldBlock for ever) — the chunks of such a case are 4 GiB of list cells. -/
+def refnalHuge (n lg : Nat) (complete : Bool) (extra : Nat) (mode : String) : String :=
+  let size := 2 ^ lg
+  let total := n * size + extra
+  let e := if complete then "eof" else "WouldBlock"
+  if total > 65536 then s!"total={total} bytes=ok end={e} again={e},{e}" else
+  let pat (k : Nat) : List UInt8 := (List.range k).map fun i => UInt8.ofNat (i % 251)
+  let chunks := List.replicate n (pat size) ++ (if extra > 0 then [pat extra] else [])
+  let expect (pos : Nat) : UInt8 := if pos < n * size then UInt8.ofNat (pos % size % 251) else UInt8.ofNat ((pos - n * size) % 251)
+  let rec go (fuel : Nat) (c : Rbsp.Chunked) (turn tot : Nat) (ok : Bool) : Rbsp.Chunked × Nat × Bool × String :=
+    match fuel with
+    | 0 => (c, tot, ok, "runaway")
+    | fuel+1 =>
+      let turn := turn + 1
+      if mode = "r" ∨ (mode = "m" ∧ turn % 3 = 0) then
+        match c.read 65536 with
+        | (_, .error k) => (c, tot, ok, ioKind k)
+        | (c', .ok bs) => if bs = [] then (c', tot, ok, "eof") else
+            go fuel c' turn (tot + bs.length) (ok && bs.head? == some (expect tot) && bs.getLast? == some (expect (tot + bs.length - 1)))
+      else
+        match c.fillBuf with
+        | .error k => (c, tot, ok, ioKind k)
+        | .ok bs => if bs = [] then (c, tot, ok, "eof") else
+            go fuel (c.consume bs.length) turn (tot + bs.length) (ok && bs.head? == some (expect tot) && bs.getLast? == some (expect (tot + bs.length - 1)))
+  let (c, tot, ok, fin) := go (total + 4) (NalSrc.mkChunked chunks complete) 0 0 true
+  let a1 := match c.fillBuf with | .ok bs => if bs = [] then "eof" else s!"data{bs.length}" | .error k => ioKind k
+  let a2 := match (c.read 1).2 with | .ok bs => if bs = [] then "eof" else s!"data{bs.length}" | .error k => ioKind k
+  s!"total={tot} bytes={if ok then "ok" else "WRONG"} end={fin} again={a1},{a2}"
+
 /-! ### acc -/
 def renderInv (i : Accum.Invocation) : String :=
   hexOf i.head ++ "|" ++ ",".intercalate (i.tail.map hexOf) ++ "|" ++ (if i.complete then "1" else "0")
@@ -372,6 +404,7 @@ def step (st : St) (line : String) : St × String :=
   | ["t35"] => (st, t35 [])
   | "stream" :: policy :: ops => (st, stream policy ops)
   | ["tbl", name, i] => (st, TblModel.row name i.toNat!)
+  | ["refnalhuge", n, lg, complete, extra, mode] => (st, refnalHuge n.toNat! lg.toNat! (complete = "1") extra.toNat! mode)
   | ["hdr", b] => let b := b.toNat!; (st, if b ≥ 128 then "err" else s!"ok {b / 32 % 4} {b % 32} back={b}")
   | ["unittype", b] => let b := b.toNat!; (st, if b > 31 then "err" else s!"ok {b}")
   | ["profile", b] => (st, b)
